@@ -36,6 +36,8 @@ package localfs
 
 // ---- KeysPrefix: delimiter truncation and pagination (C16) ---------------------------------------
 //@ func (*localFS).KeysPrefix$1
+//@   requires err == nil ==> info != nil
+//@   note the precondition is afero.Walk's contract (a nil error comes with file info): assumed, the caller is the library
 //@   call Index#1 bind cut = $ret0
 //@   call TrimPrefix#1 assert [delim-cut] cut_set && cut >= 0 ==> len($0) == len(prefix) + cut + 1
 //@   call append#1 assert [delim-cut] !noRoot && cut_set && cut >= 0 ==> len(pth#1) == len(prefix) + cut + 1
@@ -44,3 +46,7 @@ package localfs
 //@ func (*localFS).KeysPrefix
 //@   requires l != nil && count > 0
 //@   ensures [page-size] ret2 == nil ==> len(ret0) <= count
+// lexicographic order of the returned page: known finding K9 (walk order, never sorted)
+//@   ensures [sorted] ret2 == nil ==> (forall i int :: 0 <= i && i + 1 < len(ret0) ==> !strlt(ret0[i+1], ret0[i]))
+// the matching prefix must be the one the caller gave (a trailing "/" is significant): known finding K8
+//@   call Walk#1 assert [given-prefix] noRoot ==> prefix#1 == cat("/", prefix)
